@@ -158,8 +158,8 @@ def harmonic_set(a: PointTensor, b: PointTensor, c: PointTensor) -> PointTensor:
 
         l = join(a, b)
 
-    m = join(o, c)
-    p = o + 1 / 2 * m.direction
+    # an auxiliary point on the line through o and c that is different from both points
+    p = PointCollection.from_array(o.array + c.array)
     result = l.meet(join(meet(o.join(a), p.join(b)), meet(o.join(b), p.join(a))))
 
     if n > 3:
